@@ -1176,8 +1176,12 @@ class Profile:
 
 
 def _all_arrays(g: Graph) -> frozenset:
+    """the universe of SubsetDependencyMapper: the leaf arrays (a universe of
+    ALL arrays makes its frozenset operations compare every pair of
+    structurally equal duplicates with a deep ==, minutes on the ladders)"""
     import pytato as pt
-    return frozenset(o for o in g.objs if isinstance(o, pt.Array))
+    return frozenset(o for i, o in enumerate(g.objs)
+                     if isinstance(o, pt.Array) and not g.ch[i])
 
 
 def make_profiles() -> dict[str, Profile]:
@@ -1375,6 +1379,8 @@ def run_direct(pname: str, prof: Profile, root: Any, interner: Interner,
     with Recorder() as rec:
         try:
             out = prof.call(mapper, root) if prof.call else mapper(root)
+        except TimeoutError:         # the caller's CPU budget, not the mapper's doing
+            raise
         except Exception as ex:      # noqa: BLE001
             exc = ex
     traces = derive_traces(rec.raw)
@@ -1674,9 +1680,14 @@ CLASS_RULES: dict[str, dict] = {
 #: ShapeToISLExpressionMapper; the axis-tag and einsum rewriters do not look at
 #: them): for those, reaching shape components is not demanded
 SEMANTIC_SKIP = OPTIONAL_KINDS | {"shape"}
+#: ... and they evaluate ``d[name]`` through ``NamedArray.expr`` -- the entry
+#: itself -- instead of visiting the dictionary the named array belongs to
+#: (results of calls and loopy calls DO have to visit their container)
+SEMANTIC_SKIP_NODES = frozenset({"NamedArray"})
 
 
-def union_children_check(trace: Trace, g: Graph, skip_kinds: frozenset[str]) -> list[int]:
+def union_children_check(trace: Trace, g: Graph, skip_kinds: frozenset[str],
+                         skip_nodes: frozenset[str] = frozenset()) -> list[int]:
     """For mappers that memoise INSIDE their map methods (the method runs on
     every use and returns early): a node's required children must have been
     visited under SOME invocation.  -> numbers of nodes with a missing child"""
@@ -1694,6 +1705,8 @@ def union_children_check(trace: Trace, g: Graph, skip_kinds: frozenset[str]) -> 
     bad = []
     for k, vis in seen.items():
         need = {c for c, kd in zip(g.ch[k - 1], g.ek[k - 1]) if kd not in skip_kinds}
+        if g.kind(k) in skip_nodes:
+            need = set()
         if not need <= vis:
             bad.append(k)
     return bad
@@ -1735,14 +1748,14 @@ def run_entry(ename: str, fn: Callable[[Any], Any], root: Any, interner: Interne
         ov.pop("bound", None)
         v = infer_variant(t.mapper, t, ov)
         skip_kinds = rule.get("skip_kinds", prof.skip_kinds if prof else SEMANTIC_SKIP)
-        skip_nodes = prof.skip_nodes if prof else frozenset()
+        skip_nodes = prof.skip_nodes if prof else SEMANTIC_SKIP_NODES
         if rule.get("memo"):
             g = reflect(t.tops, interner)
             for e in t.events:
                 if id(e["obj"]) not in g.num:
                     g.add(e["obj"])
             if exc is None:
-                for k in union_children_check(t, g, skip_kinds):
+                for k in union_children_check(t, g, skip_kinds, skip_nodes):
                     res["findings"].append({
                         "clause": "AllChildrenReached:child_never_visited",
                         "mapper": f"{cname}@{ename}", "nodekind": g.kind(k),
